@@ -364,6 +364,8 @@ def desugar(text, rules, counts):
             text, c = _r_rec(text)
         elif r == "R-SPAWN":
             c = text.count("vx_task")  # the hoisting itself is done by hoist_spawn() before the other rules
+        elif r == "R-SEGMENT":
+            c = 1  # done by segment() before the other rules
         else:
             raise SpliceError("unknown desugaring " + r)
         # a listed desugaring without a site is not an error: the list says what MAY be rewritten in this function
@@ -679,3 +681,28 @@ def hoist_spawn(text, cfgs):
         text = text[:po + 1] + call + "\n" * nl + text[e:]
     hoisted.reverse()
     return text, hoisted
+
+
+def segment(text, cfg):
+    """R-SEGMENT: verify a suffix of a function body as a function of its own. The statements before the segment are DROPPED (stated
+    in the evidence); the segment's free variables become the declared parameter list (rustc checks it); the statements of the
+    segment are the source text, verbatim. cfg: name, params, and either `from` (the first top-level statement starting with this
+    text) or `after` (the statement following the first top-level statement that contains this text)."""
+    sh = FnShape(text)
+    st = statements(sh.m, sh.body_open, sh.body_close)
+    k = None
+    for i, (a, b, term) in enumerate(st):
+        t = _ws(text[a:b])
+        if cfg.get("from") and t.startswith(_ws(cfg["from"])):
+            k = i
+            break
+        if cfg.get("after") and _ws(cfg["after"]) in t:
+            k = i + 1
+            break
+    if k is None or k >= len(st):
+        raise SpliceError("R-SEGMENT %s: anchor statement not found" % cfg["name"])
+    mt = re.search(r"\bfn\s+(\w+)", sh.m)
+    head = text[:mt.start(1)] + cfg["name"] + text[mt.end(1):sh.params_open]
+    first_line_off = text.count("\n", 0, st[k][0])
+    new = head + "(" + cfg["params"] + ")" + text[sh.params_close + 1:sh.body_open + 1] + "\n        " + cfg.get("prologue", "") + text[st[k][0]:]
+    return new, first_line_off
